@@ -119,7 +119,8 @@ pub fn part_chains(args: &Args, pipelines: &[&'static str]) -> Part {
             tables.push(families::generic_table(&ranks, 0, flags, false));
         }
     }
-    let gen = move |_ti: usize, _t: &Table| -> Vec<Program> {
+    let seed = args.seed();
+    let gen = move |ti: usize, _t: &Table| -> Vec<Program> {
         let mut out = vec![];
         for &n in &lens {
             for pattern in 0..7 {
@@ -127,6 +128,38 @@ pub fn part_chains(args: &Args, pipelines: &[&'static str]) -> Part {
                 let text = render(&t, &Style::default());
                 out.push(Program { tree: Some(t), text, class: "long-chain" });
             }
+        }
+        // islands around the word boundaries of the consumed-operand bookkeeping: one operator everywhere, a second one
+        // at a subset of the positions 61..=66, 125..=130, 189..=194 (all subsets up to the tier's size, spread over the tables)
+        let positions: Vec<usize> = (61..=66).chain(125..=130).chain(189..=194).collect();
+        let max_k = if quick { 3 } else { 4 };
+        let mut subsets: Vec<Vec<usize>> = vec![vec![]];
+        for k in 1..=max_k {
+            fn comb(pos: &[usize], k: usize, start: usize, cur: &mut Vec<usize>, out: &mut Vec<Vec<usize>>) {
+                if cur.len() == k {
+                    out.push(cur.clone());
+                    return;
+                }
+                for i in start..pos.len() {
+                    cur.push(pos[i]);
+                    comb(pos, k, i + 1, cur, out);
+                    cur.pop();
+                }
+            }
+            comb(&positions, k, 0, &mut vec![], &mut subsets);
+        }
+        let n_tables = 30;
+        for (si, sub) in subsets.iter().enumerate() {
+            if (si + seed as usize) % n_tables != ti % n_tables {
+                continue;
+            }
+            let n = 200;
+            let (base, island) = [(families::X, families::Y), (families::Y, families::X), (families::Z, families::X), (families::X, families::Z)][si % 4];
+            let ops: Vec<u16> = (0..n - 1).map(|i| if sub.contains(&i) { island } else { base }).collect();
+            let leaves: Vec<Tree> = (0..n).map(|i| if i % 9 == 4 { Tree::lit(families::LITS[i % 8]) } else { Tree::var(["x", "y", "z"][i % 3]) }).collect();
+            let tree = families::chain_to_tree(&leaves, &ops);
+            let text = families::render_chain(&leaves, &ops);
+            out.push(Program { tree: Some(tree), text, class: "boundary-islands" });
         }
         out
     };
@@ -136,6 +169,7 @@ pub fn part_chains(args: &Args, pipelines: &[&'static str]) -> Part {
     let bounds = json!({
         "tables": ntab,
         "chains": "unparenthesised chains with 9..=257 operands (lengths around 32, 63-66, 127-130, 191-194), 7 operator/literal patterns, 6 priority patterns x 5 flag patterns",
+        "boundary_islands": format!("200-operand chains of one operator with a second operator at every subset of size <= {} of the positions 61..=66, 125..=130, 189..=194 (word boundaries of the operand tracker), spread over the 30 tables", if quick { 3 } else { 4 }),
         "pipelines": pipelines,
     });
     Part { name: "long-chains", out, bounds }
